@@ -82,7 +82,31 @@ func (r *R) Bump() {
 """
 
 
+PRE = """package %s
+
+var pre1 = 1
+
+var pre2 = 2
+
+// pre3 carries a directive that matches no code: the package already has an @ignore in an earlier file, in front of its
+// third declaration, before any is appended.
+// @ignore ZZZ9
+var pre3 = pre1 + pre2
+"""
+
+
+def with_pre(prog):
+    for pk in prog["pkgs"]:
+        d = os.path.dirname(pk["files"][0]["name"])
+        pk["files"].insert(0, {"name": (d + "/" if d else "") + "a0pre.go", "src": PRE % pk["name"]})
+    return prog
+
+
 def programs(rng, n):
+    return [with_pre(p) for p in programs0(rng, n)]
+
+
+def programs0(rng, n):
     out = []
     p, e = gen_all.allcodes("C17_all")
     p["pkgs"][0]["files"].append({"name": "d/recv.go", "src": RECV})
